@@ -140,13 +140,13 @@ def uniqueOrNone : List (Option String) → V (Option String)
 def parEqualsSeqPar (p : PPar) (sp : Option String × Option String) : Bool :=
   p.id == sp.1 && p.type == sp.2 && p.seqLen.isNone
 
-/-- `Parent.__init__` -/
-def mkParent (a : ParentArgs) : V ParentOut := do
-  let pid ← uniqueOrNone [a.id, (a.loc.bind (·.pid)), (a.seq.bind (·.id))]
-  let sty ← uniqueOrNone [a.stype, (a.loc.bind (·.ptype)), (a.seq.bind (·.type))]
+/-- lines 86-92: `if location is not None:` strand / sequence-length consistency -/
+def checkLocation (a : ParentArgs) : V Unit :=
   match a.loc with
-  | some l =>
-      -- `if strand and location.strand and strand is not location.strand` (a Strand member is always truthy)
+  | none => pure ()
+  | some l => do
+      -- `if strand and location.strand and strand is not location.strand` (a Strand member is always truthy;
+      -- `location.strand` of EmptyLocation raises)
       match a.strand with
       | some s =>
           if l.isEmpty then raise .EmptyLocation
@@ -158,26 +158,38 @@ def mkParent (a : ParentArgs) : V ParentOut := do
           if l.isEmpty then raise .EmptyLocation
           else if l.endp > q.len then raise .InvalidPosition else pure ()
       | none => pure ()
-  | none => pure ()
-  -- parent of parent: length comparison
+
+/-- lines 94-103: a sequence longer than the sequence of the parent's parent -/
+def checkParentLength (a : ParentArgs) : V Unit :=
   match a.seq, a.par with
   | some q, some p =>
       match p.seqLen with
       | some n => if q.len > n then raise .Location else pure ()
       | none => pure ()
   | _, _ => pure ()
-  -- sequence.parent vs parent
-  let hasParent ← (match a.seq.bind (·.par), a.par with
-    | some sp, some p => if parEqualsSeqPar p sp then pure true else raise .MismatchedParent
-    | some _, none => pure true
-    | none, some _ => pure true
-    | none, none => pure false : V Bool)
-  -- `.strand`: the explicit strand, overridden by the location's strand when the location is truthy
-  let strand : Option Strand :=
-    match a.loc with
-    | some l => if ¬ l.isEmpty ∧ l.len > 0 then some l.strand else a.strand
-    | none => a.strand
-  pure ⟨pid, sty, strand, hasParent⟩
+
+/-- lines 105-112: `sequence.parent` against `parent`; answers whether the new Parent has a parent -/
+def resolveParent (a : ParentArgs) : V Bool :=
+  match a.seq.bind (·.par), a.par with
+  | some sp, some p => if parEqualsSeqPar p sp then pure true else raise .MismatchedParent
+  | some _, none => pure true
+  | none, some _ => pure true
+  | none, none => pure false
+
+/-- the `.strand` property: the explicit strand, overridden by the location's strand when the location is truthy -/
+def strandProp (a : ParentArgs) : Option Strand :=
+  match a.loc with
+  | some l => if ¬ l.isEmpty ∧ l.len > 0 then some l.strand else a.strand
+  | none => a.strand
+
+/-- `Parent.__init__` -/
+def mkParent (a : ParentArgs) : V ParentOut := do
+  let pid ← uniqueOrNone [a.id, (a.loc.bind (·.pid)), (a.seq.bind (·.id))]
+  let sty ← uniqueOrNone [a.stype, (a.loc.bind (·.ptype)), (a.seq.bind (·.type))]
+  checkLocation a
+  checkParentLength a
+  let hasParent ← resolveParent a
+  pure ⟨pid, sty, strandProp a, hasParent⟩
 
 /-! ### Sequence -/
 
